@@ -26,6 +26,7 @@ type Config struct {
 	Deadline      time.Time
 	Verbose       int
 	PkgPrefix     string // packages executed from source without question
+	Fix           map[string]uint64 // forced Choose values
 }
 
 type Exec struct {
